@@ -3,6 +3,7 @@
 From Coq Require Import Lia ZArith List Bool ZifyBool ZifyN String.
 Open Scope list_scope.
 From Schwifty Require Import Lib.Base Lib.Lit Model.Clean Model.Data Model.Bban Model.National.
+From Schwifty Require Import Spec.Iso13616.
 From Schwifty Require Import Proofs.CleanFacts Proofs.NumFacts Proofs.NationalDigits.
 Import ListNotations.
 Ltac Zify.zify_post_hook ::= Z.to_euclidean_division_equations.
@@ -11,21 +12,27 @@ Lemma Ok_inj {A} (a b : A) : Ok a = Ok b -> a = b.
 Proof. intro H. injection H as H. exact H. Qed.
 
 Definition shape (w : nat) (K : text) : Prop := List.length K = w /\ forallb in_alpha K = true.
-
-Lemma digit_shape v : (0 <= v <= 9)%Z -> shape 1 (str_of_Z v).
+(* the finer fact: the computed text is made of digits (every class but Italy's, which computes a capital letter) *)
+Definition dshape (w : nat) (K : text) : Prop := List.length K = w /\ forallb is_ascii_digit K = true.
+Lemma dshape_shape w K : dshape w K -> shape w K.
 Proof.
-  intro H. rewrite (str_one v H). split; [reflexivity|]. cbn [forallb]. unfold in_alpha, is_ascii_digit, c0, c9.
-  rewrite andb_true_r. apply orb_true_iff. left. lia.
+  intros [H1 H2]. split; [exact H1|]. rewrite forallb_forall in *. intros c Hc. unfold in_alpha. rewrite (H2 c Hc). reflexivity.
 Qed.
 
-Lemma two_shape v : (0 <= v <= 99)%Z -> shape 2 (fmt0d 2 v).
+Lemma digit_dshape v : (0 <= v <= 9)%Z -> dshape 1 (str_of_Z v).
+Proof.
+  intro H. rewrite (str_one v H). split; [reflexivity|]. cbn [forallb]. unfold is_ascii_digit, c0, c9.
+  rewrite andb_true_r. lia.
+Qed.
+
+Lemma two_dshape v : (0 <= v <= 99)%Z -> dshape 2 (fmt0d 2 v).
 Proof.
   intro H. rewrite two_digits_fmt by exact H.
   destruct (two_digits_digits v H) as (d1 & d2 & E & D1 & D2 & _). rewrite E. split; [reflexivity|].
-  cbn [forallb]. unfold in_alpha. rewrite D1, D2. reflexivity.
+  cbn [forallb]. rewrite D1, D2. reflexivity.
 Qed.
 
-Lemma shape_app a b x y : shape a x -> shape b y -> shape (a + b) (x ++ y).
+Lemma dshape_app a b x y : dshape a x -> dshape b y -> dshape (a + b) (x ++ y).
 Proof. intros [H1 H2] [H3 H4]. split; [rewrite app_length; lia|rewrite forallb_app, H2, H4; reflexivity]. Qed.
 
 Section Shapes.
@@ -33,24 +40,24 @@ Variable e : env.
 Variable nd : list (N * N).
 Variable alphabet : text.
 
-Lemma iso_family_shape pre post cs K :
+Lemma iso_family_dshape pre post cs K :
   (forall r, (0 <= r < 97)%Z -> (0 <= post r <= 99)%Z) ->
-  iso_family pre post cs = Ok K -> shape 2 K.
+  iso_family pre post cs = Ok K -> dshape 2 K.
 Proof.
   intros Hp H. unfold iso_family in H. destruct (pre cs) as [n|x|x]; try discriminate. cbn [bind] in H.
-  inversion H. apply two_shape. apply Hp. lia.
+  inversion H. apply two_dshape. apply Hp. lia.
 Qed.
 
-Lemma be_shape cs K : be_compute alphabet cs = Ok K -> shape 2 K.
-Proof. apply iso_family_shape. intros r Hr. destruct (Z.eqb_spec r 0); lia. Qed.
-Lemma iso_shape cs K : iso_compute alphabet cs = Ok K -> shape 2 K.
-Proof. apply iso_family_shape. intros r Hr. lia. Qed.
-Lemma variant_shape cs K : variant_compute alphabet cs = Ok K -> shape 2 K.
-Proof. apply iso_family_shape. intros r Hr. lia. Qed.
-Lemma fr_shape cs K : fr_compute nd cs = Ok K -> shape 2 K.
+Lemma be_dshape cs K : be_compute alphabet cs = Ok K -> dshape 2 K.
+Proof. apply iso_family_dshape. intros r Hr. destruct (Z.eqb_spec r 0); lia. Qed.
+Lemma iso_dshape cs K : iso_compute alphabet cs = Ok K -> dshape 2 K.
+Proof. apply iso_family_dshape. intros r Hr. lia. Qed.
+Lemma variant_dshape cs K : variant_compute alphabet cs = Ok K -> dshape 2 K.
+Proof. apply iso_family_dshape. intros r Hr. lia. Qed.
+Lemma fr_dshape cs K : fr_compute nd cs = Ok K -> dshape 2 K.
 Proof.
   unfold fr_compute. destruct cs as [|a [|b [|c [|d cs]]]]; try discriminate.
-  apply iso_family_shape. intros r Hr. lia.
+  apply iso_family_dshape. intros r Hr. lia.
 Qed.
 
 Lemma weighted_range v m ws d : (0 < m)%Z -> weighted nd v m ws = Ok d -> (0 <= d < m)%Z.
@@ -59,7 +66,7 @@ Proof.
   cbn [bind] in H. inversion H. apply Z.mod_pos_bound. exact Hm.
 Qed.
 
-Lemma es_shape cs K : es_compute nd cs = Ok K -> shape 2 K.
+Lemma es_dshape cs K : es_compute nd cs = Ok K -> dshape 2 K.
 Proof.
   unfold es_compute. destruct cs as [|a [|b [|c [|d cs]]]]; try discriminate.
   destruct (weighted nd (a ++ b) 11 _) as [w1|x|x] eqn:E1; try discriminate. cbn [bind].
@@ -67,7 +74,7 @@ Proof.
   apply weighted_range in E1; [|lia]. apply weighted_range in E2; [|lia].
   assert (R : forall w, (0 <= w < 11)%Z -> (0 <= es_reconcile (11 - w) <= 9)%Z).
   { intros w Hw. unfold es_reconcile. destruct (Z.eqb_spec (11 - w) 11); [lia|]. destruct (Z.eqb_spec (11 - w) 10); lia. }
-  apply (shape_app 1 1); apply digit_shape; apply R; assumption.
+  apply (dshape_app 1 1); apply digit_dshape; apply R; assumption.
 Qed.
 
 Lemma upper_letters_alpha : forallb in_alpha upper_letters = true.
@@ -81,37 +88,66 @@ Proof.
   pose proof upper_letters_alpha as A. rewrite forallb_forall in A. apply A. exact (nth_error_In _ _ E).
 Qed.
 
-Lemma fi_shape cs K : fi_compute nd alphabet cs = Ok K -> shape 1 K.
+Lemma it_ushape cs K : it_compute e cs = Ok K -> List.length K = 1%nat /\ forallb is_ascii_upper K = true.
+Proof.
+  unfold it_compute. destruct (it_sum e 0 (concat_text cs)) as [s|x|x]; try discriminate. cbn [bind].
+  destruct (nth_error upper_letters (Z.to_nat (s mod 26))) as [c|] eqn:E; [|discriminate]. intro H. apply Ok_inj in H. subst K.
+  split; [reflexivity|]. cbn [forallb]. rewrite andb_true_r.
+  assert (A : forallb is_ascii_upper upper_letters = true) by (vm_compute; reflexivity).
+  rewrite forallb_forall in A. apply A. exact (nth_error_In _ _ E).
+Qed.
+
+Lemma fi_dshape cs K : fi_compute nd alphabet cs = Ok K -> dshape 1 K.
 Proof.
   unfold fi_compute, luhn. destruct (alpha_digits alphabet _) as [n|x|x]; try discriminate. cbn [bind].
   destruct (luhn_processed nd 0 (rev n)) as [p|x|x]; try discriminate. cbn [bind].
   destruct (digit_sum_text nd p) as [s|x|x]; try discriminate. cbn [bind]. intro H. apply Ok_inj in H. subst K.
-  apply digit_shape. lia.
+  apply digit_dshape. lia.
 Qed.
 
 Lemma no_digit m : (0 <= m < 11)%Z -> (11 - m)%Z <> 10%Z -> (0 <= (11 - m) mod 11 <= 9)%Z.
 Proof. intros H1 H2. lia. Qed.
 
-Lemma no_shape cs K : no_compute nd cs = Ok K -> shape 1 K.
+Lemma no_dshape cs K : no_compute nd cs = Ok K -> dshape 1 K.
 Proof.
   unfold no_compute. destruct cs as [|a [|b [|c cs]]]; try discriminate.
   destruct (weighted_sum nd no_weights _) as [t|x|x]; try discriminate. cbn [bind]. cbv zeta.
   pose proof (Z.mod_pos_bound t 11 ltac:(lia)) as Hm. set (m := (t mod 11)%Z) in *. clearbody m.
   destruct (Z.eqb_spec (11 - m) 10) as [|Hne]; [discriminate|]. intro H. apply Ok_inj in H. subst K.
-  apply digit_shape. apply no_digit; assumption.
+  apply digit_dshape. apply no_digit; assumption.
 Qed.
 
-Lemma pl_shape cs K : pl_compute nd cs = Ok K -> shape 1 K.
+Lemma pl_dshape cs K : pl_compute nd cs = Ok K -> dshape 1 K.
 Proof.
   unfold pl_compute. destruct (weighted nd _ 10 _) as [d|x|x] eqn:E; try discriminate. cbn [bind]. intro H. apply Ok_inj in H. subst K.
-  apply weighted_range in E; [|lia]. apply digit_shape. destruct (Z.eqb_spec d 0); lia.
+  apply weighted_range in E; [|lia]. apply digit_dshape. destruct (Z.eqb_spec d 0); lia.
 Qed.
 
-Lemma ee_shape cs K : ee_compute nd cs = Ok K -> shape 1 K.
+Lemma ee_dshape cs K : ee_compute nd cs = Ok K -> dshape 1 K.
 Proof.
   unfold ee_compute. cbv zeta. destruct (weighted nd _ 10 _) as [d|x|x] eqn:E; try discriminate. cbn [bind]. intro H. apply Ok_inj in H. subst K.
-  apply weighted_range in E; [|lia]. apply digit_shape. destruct (Z.eqb_spec d 0); lia.
+  apply weighted_range in E; [|lia]. apply digit_dshape. destruct (Z.eqb_spec d 0); lia.
 Qed.
+
+
+Lemma be_shape cs K : be_compute alphabet cs = Ok K -> shape 2 K.
+Proof. intro H. exact (dshape_shape _ _ (be_dshape cs K H)). Qed.
+Lemma iso_shape cs K : iso_compute alphabet cs = Ok K -> shape 2 K.
+Proof. intro H. exact (dshape_shape _ _ (iso_dshape cs K H)). Qed.
+Lemma variant_shape cs K : variant_compute alphabet cs = Ok K -> shape 2 K.
+Proof. intro H. exact (dshape_shape _ _ (variant_dshape cs K H)). Qed.
+Lemma fr_shape cs K : fr_compute nd cs = Ok K -> shape 2 K.
+Proof. intro H. exact (dshape_shape _ _ (fr_dshape cs K H)). Qed.
+Lemma es_shape cs K : es_compute nd cs = Ok K -> shape 2 K.
+Proof. intro H. exact (dshape_shape _ _ (es_dshape cs K H)). Qed.
+Lemma fi_shape cs K : fi_compute nd alphabet cs = Ok K -> shape 1 K.
+Proof. intro H. exact (dshape_shape _ _ (fi_dshape cs K H)). Qed.
+Lemma no_shape cs K : no_compute nd cs = Ok K -> shape 1 K.
+Proof. intro H. exact (dshape_shape _ _ (no_dshape cs K H)). Qed.
+Lemma pl_shape cs K : pl_compute nd cs = Ok K -> shape 1 K.
+Proof. intro H. exact (dshape_shape _ _ (pl_dshape cs K H)). Qed.
+Lemma ee_shape cs K : ee_compute nd cs = Ok K -> shape 1 K.
+Proof. intro H. exact (dshape_shape _ _ (ee_dshape cs K H)). Qed.
 
 (* the width of what a class computes *)
 Definition class_width (cls : text) : option nat :=
@@ -145,6 +181,32 @@ Proof.
   - exact (pl_shape _ _ HK).
   - exact (ee_shape _ _ HK).
 Qed.
+
+(* the class of character a check-digit class computes *)
+Definition class_kind (cls : text) : kind := if text_eqb cls (tx "italy.DefaultAlgorithm") then Ka else Kn.
+Theorem national_class_kshape cls accepts al vals K w :
+  national_class e nd alphabet cls accepts = Some al -> al_compute al vals = Ok K ->
+  class_width cls = Some w -> forallb (kind_ok (class_kind cls)) K = true.
+Proof.
+  unfold national_class, class_width, class_kind.
+  repeat match goal with |- context [text_eqb cls ?t] => destruct (text_eqb cls t) eqn:? end;
+    intro H; inversion H; subst al; cbn [al_compute mk]; intros HK Hw; inversion Hw; subst w;
+    try discriminate;
+    try (exfalso; match goal with
+         | H1 : text_eqb cls ?a = true, H2 : text_eqb cls ?b = true |- _ =>
+           apply Proofs.CleanFacts.text_eqb_eq in H1; subst cls; vm_compute in H2; discriminate H2 end).
+  - exact (proj2 (be_dshape _ _ HK)).
+  - exact (proj2 (iso_dshape _ _ HK)).
+  - exact (proj2 (variant_dshape _ _ HK)).
+  - exact (proj2 (fr_dshape _ _ HK)).
+  - exact (proj2 (es_dshape _ _ HK)).
+  - exact (proj2 (it_ushape _ _ HK)).
+  - exact (proj2 (fi_dshape _ _ HK)).
+  - exact (proj2 (no_dshape _ _ HK)).
+  - exact (proj2 (pl_dshape _ _ HK)).
+  - exact (proj2 (ee_dshape _ _ HK)).
+Qed.
+
 
 (* the classes that compute a check digit validate by computing and comparing *)
 Theorem national_class_default cls accepts al w :
